@@ -371,6 +371,10 @@ def sh_visit(ctx, out, name, attr=None, rule="SH.visit"):
                                  "the %s loop of the `%s` validator iterates through %s: iteration can stop before every %s has been visited, so later blocks are never checked" % (kind, name, bad, "file" if kind == "files" else "block"))
                     else:
                         n += 1
+            # the iteration ends only when its iterator is exhausted or with an error: any other edge out of
+            # the loop (a `break` left over from an inner loop, say) stops the validator after the first
+            # block / file that reached it
+            n += _loop_exits_ok(ctx, out, rule, name, body, cfg, h, blocks, kind)
             if kind != "blocks":
                 continue
             # a block without the attribute continues (does not leave the loop)
@@ -404,6 +408,58 @@ def sh_visit(ctx, out, name, attr=None, rule="SH.visit"):
                         out.viol(rule, "%s|%s|missing-attr-not-continue" % (rule, name), ctx.where(body, t["span"]),
                                  "a block without `%s` does not simply continue with the next block of the file: blocks after it would not be validated" % attr)
     out.inst(rule + "." + name, n, 2, note="block/file loops iterate the collections directly; missing attribute -> continue")
+
+
+def _err_blocks(body):
+    """blocks that produce the function's Err / residual return value"""
+    eb = set()
+    for bi, j, s in body.assigns():
+        rv = s["rv"]
+        if s["lhs"]["l"] == 0 and rv["k"] == "agg" and rv.get("variant") in ("Err",):
+            eb.add(bi)
+    for bi, t in body.calls():
+        if callee_matches(t, r"FromResidual<.*>>?::from_residual$|FromResidual::from_residual$") and t["dest"]["l"] == 0:
+            eb.add(bi)
+    return eb
+
+
+def _loop_exits_ok(ctx, out, rule, name, body, cfg, h, blocks, kind):
+    from rules import util as U
+    nb = [y for y in blocks if body.blocks[y]["term"] and body.blocks[y]["term"]["k"] == "call" and callee_matches(body.blocks[y]["term"], r"Iterator>?::next$")]
+    # the exhausted-iterator exits: None arms of the driving next() calls of this loop nest level
+    none_targets = set()
+    for y in nb:
+        succ = cfg.succ[y]
+        if succ and body.blocks[succ[0]]["term"] and body.blocks[succ[0]]["term"]["k"] == "switch":
+            arms = U.switch_arms(body, succ[0])
+            tgt = arms.get(0, arms["otherwise"])
+            none_targets.add(tgt)
+            none_targets.add(U.skip_trivial(body, tgt))
+    eb = _err_blocks(body)
+    bset = set(blocks)
+    bad = None
+    for x in blocks:
+        for y in cfg.succ[x]:
+            if y in bset or y in none_targets:
+                continue
+            # an exit that is not the exhausted-iterator exit: fine iff it can only end in an error return
+            r = cfg.reach(y, avoid=eb)
+            normal = [z for z in r if z in cfg.exits] or [z for z in r if z == h]
+            # leaving through a block that sets the error first is handled by `avoid`; reaching a return
+            # (or an enclosing loop's next iteration) without passing an error producer is a break
+            enclosing = [H for H, HB in cfg.loops().items() if H != h and bset < set(HB)]
+            if normal or any(H in r for H in enclosing):
+                # the exit edge of an inner exhausted iterator (nested pull loops) is not a break
+                if x in eb:
+                    continue
+                bad = (x, y)
+    if bad:
+        sp = body.blocks[bad[0]]["term"].get("span") if body.blocks[bad[0]]["term"] else None
+        out.viol(rule, "%s|%s|break|%s" % (rule, name, kind), ctx.where(body, sp),
+                 "the %s loop of the `%s` validator can be left early without an error (a `break` / early exit): the %s after the one that reached it are never checked, so their violations (and malformed rules) go unreported" % (
+                     kind, name, "blocks of the file" if kind == "blocks" else "files"))
+        return 0
+    return 1
 
 
 WORK_ITEMS = re.compile(r"unidiff::(PatchedFile|Hunk|Line)\b|blockwatch::blocks::(Block|BlockWithContext|FileBlocks)\b|blockwatch::language_parsers::Comment\b|blockwatch::tag_parser::\w+|blockwatch::validators::Violation\b|dyn blockwatch::validators::\w+|tree_sitter::(Node|QueryMatch|QueryCapture)\b")
@@ -527,3 +583,17 @@ def sh_flags(ctx, out, name, rule):
                 elif isinstance(e, dict) and e.get("f") == "block":
                     n += 1
     out.inst(rule, n, 1, note="reads of BlockWithContext.block in the validator's code; reads of the modification flags must be 0")
+
+
+def run_renamed(out, fn, old, new):
+    """Runs a rule function of another property on a trial outcome and adopts it under this
+    property's rule names (`old.` prefix -> `new.`): shared necessary conditions are reported per property."""
+    tr = out.trial()
+    fn(tr)
+    for v in tr.violations:
+        out.viol(v["rule"].replace(old + ".", new + ".", 1) if v["rule"].startswith(old + ".") else v["rule"],
+                 v["key"].replace(old + ".", new + ".", 1) if v["key"].startswith(old + ".") else v["key"], v["where"], v["msg"].replace("rule " + old + ".", "rule " + new + "."))
+    for r, d in tr.rules.items():
+        out.rules[r.replace(old + ".", new + ".", 1) if r.startswith(old + ".") else r] = d
+    out.notes.extend(tr.notes)
+    out.exceptions_used.extend(tr.exceptions_used)
